@@ -22,6 +22,12 @@ request is notified accordingly (not by a disconnect) the listener issues `op` f
 (a re-entrant call into Memory, e.g. a retry).  The nested call is reported as an event of its own right after the
 event in which it happened (`Rig.flat` is the flattened history): the code calls its listeners last, so a request
 issued from a listener must behave exactly like one issued right after the event.
+Deck layer (memory id DECK_ID, a real DeckMemoryManager registered on Memory's notifications like
+_handle_cmd_info_details does, and real DeckMemory objects, one per base address):
+  ['DR', base, addr, len, tok]         DeckMemory(base).read(addr, len, cb, read_failed_cb)
+  ['DW', base, addr, [bytes], tok]     DeckMemory(base).write(addr, data, cb, write_failed_cb)
+their callbacks are reported as 12 (read done: tok, reported address, data), 13 (read failed), 14 (write done),
+15 (write failed), like `enc_dobs` of coq/C06/DeckModel.v.
 Observations are encoded as integers exactly like `enc_obs` / `sys_trace` of the model.
 """
 import logging
@@ -102,6 +108,7 @@ class FakeCF:
 
 
 MEM_CLASSES = ('MemoryElement', 'MemoryTester', 'DeckMemoryManager')
+DECK_ID = 6
 
 
 class Rig:
@@ -138,6 +145,16 @@ class Rig:
         self.last_raised = False
         self.last_hung = False
         self.obs_after_nested = 0  # observations the outer handler produced after a re-entrant call returned
+        self.mgr = None            # the DeckMemoryManager (created with the first deck operation / after a disconnect)
+        self.mgr_uid = {'r': None, 'w': None}
+        self.decks = {}
+        self.last_read_ret = None
+        orig_read = self.mem.read
+
+        def read_and_remember(*a, **k):
+            self.last_read_ret = orig_read(*a, **k)
+            return self.last_read_ret
+        self.mem.read = read_and_remember
         self._register()
 
     # ---- wiring
@@ -153,32 +170,32 @@ class Rig:
 
     def _rok(self, mem, addr, data):
         self._bump(1, mem.id)
-        self.notes.append((self.ev_index, ('rok', mem.uid, mem.id, addr, list(data))))
+        self.notes.append((self.ev_index, ('rok', self._uid_of(mem, 'r'), mem.id, addr, list(data))))
         img = {a: b for (j, a), b in self.image.items() if j == mem.id} if self.want_pre else None
         self.stream.append(('n', self.notes[-1][1], img))
-        self.cur += [2, mem.uid, mem.id, addr, len(data)] + list(data)
+        self.cur += [2, self._uid_of(mem, 'r'), mem.id, addr, len(data)] + list(data)
         self._react(mem, 'ok')
 
     def _rfail(self, mem, addr, data):
         self._bump(1, mem.id)
-        self.notes.append((self.ev_index, ('rfail', mem.uid, mem.id, addr, list(data))))
+        self.notes.append((self.ev_index, ('rfail', self._uid_of(mem, 'r'), mem.id, addr, list(data))))
         self.stream.append(('n', self.notes[-1][1]))
-        self.cur += [3, mem.uid, mem.id, addr, len(data)] + list(data)
+        self.cur += [3, self._uid_of(mem, 'r'), mem.id, addr, len(data)] + list(data)
         self._react(mem, 'fail')
 
     def _wok(self, mem, addr):
         self._bump(2, mem.id)
-        self.notes.append((self.ev_index, ('wok', mem.uid, mem.id, addr)))
+        self.notes.append((self.ev_index, ('wok', self._uid_of(mem, 'w'), mem.id, addr)))
         img = {a: b for (j, a), b in self.image.items() if j == mem.id} if self.want_pre else None
         self.stream.append(('n', self.notes[-1][1], img))
-        self.cur += [4, mem.uid, mem.id, addr]
+        self.cur += [4, self._uid_of(mem, 'w'), mem.id, addr]
         self._react(mem, 'ok')
 
     def _wfail(self, mem, addr):
         self._bump(2, mem.id)
-        self.notes.append((self.ev_index, ('wfail', mem.uid, mem.id, addr)))
+        self.notes.append((self.ev_index, ('wfail', self._uid_of(mem, 'w'), mem.id, addr)))
         self.stream.append(('n', self.notes[-1][1]))
-        self.cur += [5, mem.uid, mem.id, addr]
+        self.cur += [5, self._uid_of(mem, 'w'), mem.id, addr]
         self._react(mem, 'fail')
 
     def new_mem(self, i, react=None):
@@ -188,6 +205,72 @@ class Rig:
         o.uid = self.uid
         o.react = react
         return o
+
+    # ---- deck layer
+    def _uid_of(self, mem, kind):
+        if mem is self.mgr:
+            return self.mgr_uid[kind]
+        return mem.uid
+
+    def _deck_manager(self):
+        if self.mgr is None:
+            m = self.memmod.DeckMemoryManager(id=DECK_ID, type=0x19, size=0x7FFFFFFF, mem_handler=self.mem)
+            self.mem.mem_read_cb.add_callback(m._new_data)
+            self.mem.mem_read_failed_cb.add_callback(m._new_data_failed)
+            self.mem.mem_write_cb.add_callback(m._write_done)
+            self.mem.mem_write_failed_cb.add_callback(m._write_failed)
+            self.mgr = m
+            self.decks = {}
+        return self.mgr
+
+    def _deck(self, base):
+        mgr = self._deck_manager()
+        if base not in self.decks:
+            from cflib.crazyflie.mem.deck_memory import DeckMemory
+            d = DeckMemory(mgr, 0x1000 + 0x20 * len(self.decks))
+            d._base_address = base
+            d._bit_field1 = DeckMemory.MASK_IS_VALID | DeckMemory.MASK_IS_STARTED | DeckMemory.MASK_SUPPORTS_READ | \
+                DeckMemory.MASK_SUPPORTS_WRITE
+            d.name = 'deck%X' % base
+            self.decks[base] = d
+        return self.decks[base]
+
+    def _dnote(self, kind, tok, a, data=None):
+        code = {'drok': 12, 'drfail': 13, 'dwok': 14, 'dwfail': 15}[kind]
+        self.stream.append(('dn', kind, tok, a, data))
+        self.cur += [code, tok, a] + ([len(data)] + data if data is not None else [])
+
+    def _issue_deck(self, ev):
+        self.flat.append(list(ev))
+        u0 = self.uid
+        self.stream.append(('dop', ev, u0))
+        dk = self._deck(ev[1])
+        tok = ev[4]
+        if ev[0] == 'DR':
+            self.last_read_ret = None
+            keep = self.mgr_uid['r']
+            if self.mgr._read_complete_cb is None:
+                self.mgr_uid['r'] = u0
+            dk.read(ev[2], ev[3], lambda a, data: self._dnote('drok', tok, a, list(data)),
+                    read_failed_cb=lambda a: self._dnote('drfail', tok, a))
+            if self.last_read_ret:
+                self.uid += 1
+            else:
+                self.mgr_uid['r'] = keep
+            self.cur += [6, 1 if self.last_read_ret else 0]
+        else:
+            if self.mgr._write_complete_cb is None:
+                self.mgr_uid['w'] = u0
+                self.uid += 1
+            try:
+                dk.write(ev[2], bytearray(ev[3]), lambda a: self._dnote('dwok', tok, a),
+                         write_failed_cb=lambda a: self._dnote('dwfail', tok, a))
+            except Exception:
+                if self.uid == u0 + 1 and self.mgr_uid['w'] == u0 and self.mgr._write_complete_cb is None:
+                    self.uid = u0
+                raise
+            self.cur += [6, 1]
+        self.stream.append(('dopret', ev, u0, self.uid))
 
     # ---- frames, re-entrant listeners
     def _new_frame(self, fresh):
@@ -301,6 +384,8 @@ class Rig:
         try:
             if ev[0] in ('R', 'W'):
                 self._issue(ev)
+            elif ev[0] in ('DR', 'DW'):
+                self._issue_deck(ev)
             else:
                 self.flat.append(strip(ev))
                 if ev[0] == 'D':
@@ -315,6 +400,8 @@ class Rig:
                     finally:
                         self.in_disc = False
                     self._register()       # _clear_state() replaces the Caller objects
+                    self.mgr = None        # the memories are enumerated again after a reconnect: a new manager
+                    self.mgr_uid = {'r': None, 'w': None}
                 else:
                     raise ValueError(ev)
         except WouldBlock:
